@@ -59,6 +59,12 @@ ResumeSecret(s, pubv, sidv)  == Kdf(s, ResumeSalt(pubv, sidv), "Pair-Resume-Shar
 
 \* ------------------------------------------------------------------ the reply space
 Heads    == {<<"ok", "none">>, <<"wrong", "none">>, <<"ok", "auth">>}    \* (step number, error item)
+\* values an Error item can carry: "auth" = 0x02 (what a conformant accessory answers to a proof it rejects), the other
+\* codes of the HAP table (e01 .. e07), codes outside the table (e00, e08, e80, eff), the remaining single-bit
+\* alterations of 0x02 (0x03, 0x00, 0x06 are e03, e00, e06; e0a, e12, e22, e42, e82), a zero-length value, a two-byte
+\* value.  Whatever the value: a reply that carries an Error item ends the attempt with an error and without keys.
+ErrVals  == {"auth", "e01", "e03", "e04", "e05", "e06", "e07", "e00", "e08", "e80", "eff",
+             "e0a", "e12", "e22", "e42", "e82", "elen0", "e2b"}
 PubCh    == {"absent", "eA", "eZ", "eA0", "short", "long"}
 KeyCh    == {"I_A", "I_Z", "I0_A0", "junk"}          \* DH(eI,eA) / DH(eI,eZ) / DH(eI0,eA0) / unrelated
 NonceCh  == {"PV-Msg02", "PV-Msg03"}
@@ -138,7 +144,7 @@ Canon(r) ==
     \* "empty": a State item of length 0; "trailing": the right step number followed by another byte - neither is the
     \* one-byte step number M2 (only a State item that is *missing* is tolerated, see C04)
     <<Item("state", St(CASE r.st = "ok" -> "M2" [] r.st = "wrong" -> "M4" [] r.st = "empty" -> "zero-length" [] OTHER -> "M2+trailing"))>>
-    \o (IF r.err = "auth" THEN <<Item("error", Err("auth"))>> ELSE << >>)
+    \o (IF r.err # "none" THEN <<Item("error", Err(r.err))>> ELSE << >>)
     \o (IF r.method # "absent" THEN <<Item("method", Meth(r.method))>> ELSE << >>)
     \o (IF r.sid # "absent" THEN <<Item("sid", SidTerm(r))>> ELSE << >>)
     \o (IF r.pub # "absent" THEN <<Item("pub", PubTerm(r))>> ELSE << >>)
@@ -187,20 +193,24 @@ MethSpace == IF WithResume THEN MethodCh ELSE {"absent"}
 SidSpace  == IF WithResume THEN SidCh ELSE {"absent"}
 Honest ==    Mk(<<"ok", "none">>, "eA", HonestSub, ModDefault, "absent", "absent")
 HonestResume == Mk(<<"ok", "none">>, "absent", [EncDefault EXCEPT !.enc = "tag"], ModDefault, "resume", "new")
+\* the accessory answers M1 with an error: the Error item (any value) on its own or added to the honest reply
+BareError == Mk(<<"ok", "auth">>, "absent", EncDefault, ModDefault, "absent", "absent")
+ErrorSpace == { [Honest EXCEPT !.err = e] : e \in ErrVals } \cup { [BareError EXCEPT !.err = e] : e \in ErrVals }
 \* otherwise honest replies whose State item has the wrong length
 StateLenSpace == { [Honest EXCEPT !.st = x] : x \in {"empty", "trailing"} }
                  \cup (IF WithResume THEN { [HonestResume EXCEPT !.st = x] : x \in {"empty", "trailing"} } ELSE {})
 
 \* membership test, field by field (cheap: used on recorded replies)
 InSpace(r) ==
-  \/ r \in StateLenSpace
+  \/ r \in StateLenSpace \/ r \in ErrorSpace
   \/
     /\ <<r.st, r.err>> \in Heads /\ r.pub \in PubSpace /\ r.method \in MethSpace /\ r.sid \in SidSpace
     /\ [enc |-> r.enc, key |-> r.key, nonce |-> r.nonce, id |-> r.id, sigp |-> r.sigp, signer |-> r.signer, tr |-> r.tr,
         tag |-> r.tag] \in EncSpace
     /\ [corrupt |-> r.corrupt, layout |-> r.layout, cut |-> r.cut] \in ModSpace
     /\ Valid(r)
-M4Space == {"ok", "wrong", "auth", "empty", "trailing"}     \* empty / trailing: State item of length 0 / M4 + another byte
+\* empty / trailing: State item of length 0 / M4 + another byte; an error value: State M4 and an Error item with it
+M4Space == {"ok", "wrong", "empty", "trailing"} \cup ErrVals
 
 
 \* number of choices in which a description differs from the honest reply (near misses are exported in every tier)
@@ -263,7 +273,7 @@ Verdict(r, m4) ==
     IF m2[1] = "fail" THEN [v |-> "fail", stage |-> m2[2], m3 |-> FALSE]
     ELSE IF m2[1] = "resumed" THEN [v |-> "ok", stage |-> "resumed", m3 |-> FALSE]
     ELSE IF m4 \in {"wrong", "empty", "trailing"} THEN [v |-> "fail", stage |-> "state4", m3 |-> TRUE]
-    ELSE IF m4 = "auth" THEN [v |-> "fail", stage |-> "error4", m3 |-> TRUE]
+    ELSE IF m4 \in ErrVals THEN [v |-> "fail", stage |-> "error4", m3 |-> TRUE]
     ELSE [v |-> "ok", stage |-> "full", m3 |-> TRUE]
 
 \* ------------------------------------------------------------------ state machine
@@ -283,6 +293,7 @@ vars == <<cpc, reply, d, failed, resumed, shared, ckeys, m3, m4, apc, akeys>>
 Init == /\ \/ \E h \in Heads, p \in PubSpace, e \in EncSpace, m \in ModSpace, meth \in MethSpace, sid \in SidSpace :
                  reply = Mk(h, p, e, m, meth, sid) /\ Valid(reply)
            \/ reply \in StateLenSpace
+           \/ reply \in ErrorSpace
         /\ m4 = "none"
         /\ cpc = "M1sent" /\ d = [t \in Types |-> None] /\ failed = "none" /\ resumed = FALSE
         /\ shared = None /\ ckeys = None /\ m3 = None /\ apc = "idle" /\ akeys = None
@@ -343,7 +354,7 @@ ReceiveM4 ==            \* the reply to M3: honest, wrong step number, or an err
 CheckM4State == cpc = "state4" /\ IF m4 \notin {"wrong", "empty", "trailing"} THEN Goto("error4") ELSE Fail("state4")
 CheckM4Error ==
     /\ cpc = "error4"
-    /\ IF m4 # "auth"
+    /\ IF m4 \notin ErrVals
        THEN /\ cpc' = "Done" /\ ckeys' = SessionKeys(shared)
             /\ UNCHANGED <<reply, d, failed, resumed, shared, m3, m4, apc, akeys>>
        ELSE Fail("error4")
